@@ -1,7 +1,7 @@
 //! C38 — transport failures end pending work with errors, never hangs.
 //!
-//! Fault enumeration: one scripted session (2 pending calls, a rule stream, the unfiltered
-//! stream, inbound [signal, reply to call 0, signal], outbound [call 0, call 1, signal]) × fault
+//! Fault enumeration: one scripted session (2 pending calls, a rule stream, a second rule stream
+//! whose queue holds one message, the unfiltered stream, inbound [signal, reply to call 0, signal], outbound [call 0, call 1, signal]) × fault
 //! ∈ {EOF, EIO} at EVERY byte offset of the inbound stream, and EIO at EVERY sendmsg call index;
 //! around each fault the schedule is explored with a deviation bound.
 
@@ -58,12 +58,21 @@ fn scenario(fault: Fault) -> ExecResult {
                 .unwrap()
                 .build();
             let rs = MessageStream::for_match_rule(rule, &c2, None).await;
+            // a second rule (its own channel) with room for ONE queued message: the socket reader
+            // has to wait for this consumer, also when it hands out the failure
+            let small = MatchRule::builder()
+                .msg_type(zbus::message::Type::Signal)
+                .path("/p")
+                .unwrap()
+                .build();
+            let ss = MessageStream::for_match_rule(small, &c2, Some(1)).await;
             let us = MessageStream::from(&c2);
-            (rs, us)
+            (rs, ss, us)
         })
         .expect("streams");
-    let (rs, us) = streams;
+    let (rs, ss, us) = streams;
     let rs = rs.expect("rule stream before any fault");
+    let ss = ss.expect("small-queue stream before any fault");
     let consume = |mut s: MessageStream| async move {
         let mut items: Vec<Result<String, String>> = vec![];
         while let Some(it) = s.next().await {
@@ -78,6 +87,7 @@ fn scenario(fault: Fault) -> ExecResult {
         items
     };
     let rule_consumer = w.spawn("rule-consumer", consume(rs));
+    let small_consumer = w.spawn("small-queue-consumer", consume(ss));
     let unf_consumer = w.spawn("unfiltered-consumer", consume(us));
     let mut callers = vec![];
     for i in 0..2 {
@@ -216,6 +226,11 @@ fn scenario(fault: Fault) -> ExecResult {
             (
                 "rule",
                 &rule_consumer,
+                complete_inbound.iter().filter(|n| n.starts_with('S')).map(|s| s.to_string()).collect::<Vec<_>>(),
+            ),
+            (
+                "small-queue",
+                &small_consumer,
                 complete_inbound.iter().filter(|n| n.starts_with('S')).map(|s| s.to_string()).collect::<Vec<_>>(),
             ),
             (
